@@ -72,6 +72,8 @@ def build_ann(a, W):
         return type[typing.Any]
     if k == "type":
         return type[build_t(a[1], W)]
+    if k == "union":
+        return typing.Union[build_ann(a[1], W), build_ann(a[2], W)]
     raise ValueError(a)
 
 
@@ -97,6 +99,8 @@ def tstr(T):
         return f"IntKeyed[{tstr(T[1])}]"
     if k == "cls":
         return tstr(T[1])
+    if k == "union":
+        return f"{tstr(T[1])} | {tstr(T[2])}"
     return {"list": "list", "mylist": "MyList", "dict": "dict", "type": "type", "tuple": "tuple"}[k] + "[" + ", ".join(tstr(x) for x in T[1:]) + "]"
 
 
@@ -104,8 +108,8 @@ def subT(S, T, W):
     n = W.n
     if S[0] == "any":
         S = ("obj",)
-    if T[0] == "obj":
-        return z3.BoolVal(True)
+    if T[0] in ("obj", "any"):
+        return z3.BoolVal(True)      # typing.Any counts as object, also as an argument of a generic
     if S[0] in ("bare", "intkeyed"):
         # a bare class (list, dict, a subclass) or a subclass origin with its own, different parameter list: never a
         # subtype of a parametrised generic with another number of arguments, nor of a harness class
@@ -133,6 +137,8 @@ def app(W):
             return z3.BoolVal(False)
         if ann[0] == "type":
             return subT(arg[1], ann[1], W) if arg[0] == "cls" else z3.BoolVal(False)
+        if ann[0] == "union":
+            return z3.Or(f(ann[1], arg), f(ann[2], arg))
         raise ValueError(ann)
     return f
 
@@ -147,6 +153,10 @@ def le(W):
             return W.rel(a[1], b[1])
         if a[0] == "type" and b[0] == "type":
             return subT(a[1], b[1], W)
+        if a[0] == "union":
+            return z3.And(f(a[1], b), f(a[2], b))
+        if b[0] == "union":
+            return z3.Or(f(a, b[1]), f(a, b[2]))
         return z3.BoolVal(False)
     return f
 
@@ -171,11 +181,16 @@ def make_run(W, shape, known_active=None):
     args = [tt(a) for a in shape["args"]]
     M = len(methods)
     npos = len(args)
-    key = npos, M
+    kwonly = bool(shape.get("kwonly"))
+    key = npos, M, kwonly
     ms = _MS.get(key)
     if ms is None:
-        specs_ = [dict(pos=[(nm, ("obj",), False) for nm in "xy"[:npos]]) for _ in range(M)]
-        if npos == 1:
+        if kwonly:
+            # the type-valued parameter is keyword-only (the lookup for keywords is generated separately from the positional one)
+            specs_ = [dict(pos=[], kw=[("x", ("obj",), False)]) for _ in range(M)]
+        else:
+            specs_ = [dict(pos=[(nm, ("obj",), False) for nm in "xy"[:npos]]) for _ in range(M)]
+        if npos == 1 and not kwonly:
             # an extra method on instances of K2 that forwards the passed TYPE through recurse: the rewritten call site must
             # key type-valued arguments exactly like the entry point does
             specs_.append(dict(pos=[("x", ("obj",), False)], body="return ('rec', recurse(PASSED[0]))"))
@@ -191,7 +206,7 @@ def make_run(W, shape, known_active=None):
         for m in range(M):
             hs[m].__annotations__ = {nm: build_ann(a, W) for nm, a in zip("xy", methods[m])}
             ov.register(hs[m], priority=W.prio[m])
-        via_recurse = npos == 1 and args[0][0] == "cls" and not any(a[0] == ("K", 2) for a in sup)
+        via_recurse = npos == 1 and not kwonly and args[0][0] == "cls" and not any(a[0] == ("K", 2) for a in sup)
         if via_recurse:
             hs[M].__annotations__ = {"x": W.K[2]}
             ov.register(hs[M], priority=W.prio[M])
@@ -201,8 +216,12 @@ def make_run(W, shape, known_active=None):
                 actual.append(W.inst[a[1]] if a[1] >= 0 else object())
             else:
                 actual.append(build_t(a[1], W))
-        out, res = outcome_of(lambda: ov.dispatch(*actual), LOG)
-        sane = (len(LOG) == 1 and res == out[1] and all(x is y for x, y in zip(LOG[0][1], actual))) if out[0] == "ran" else not LOG
+        if kwonly:
+            out, res = outcome_of(lambda: ov.dispatch(x=actual[0]), LOG)
+            sane = (len(LOG) == 1 and res == out[1] and LOG[0][1] == () and LOG[0][2].get("x") is actual[0]) if out[0] == "ran" else not LOG
+        else:
+            out, res = outcome_of(lambda: ov.dispatch(*actual), LOG)
+            sane = (len(LOG) == 1 and res == out[1] and all(x is y for x, y in zip(LOG[0][1], actual))) if out[0] == "ran" else not LOG
         if via_recurse and sane:
             PASSED[0] = actual[0]
             from symx.kit import full_outcome
@@ -230,7 +249,7 @@ def make_run(W, shape, known_active=None):
             post = z3.BoolVal(False)
         napp = sum(1 for m in range(M) if z3.is_true(ctx.value(apps[m])))
         info = dict(methods=[", ".join(tstr(a) for a in m) for m in methods], call=[tstr(a) for a in args], outcome=list(out),
-                    same_through_recurse=(sane if via_recurse else None))
+                    same_through_recurse=(sane if via_recurse else None), keyword_only=kwonly)
         return Verdict(post, known, info, [out[0]], nontrivial=napp >= 2)
 
     return run
@@ -243,7 +262,7 @@ def gen_shapes(tier, seed):
     A0 = [("obj",), K0, K1, ("type", ("obj",)), ("baretype",), ("type", K0), ("type", K1),
           ("type", ("list", K0)), ("type", ("list", K1)), ("type", ("list", ("obj",))),
           ("type", ("dict", K0, K1)), ("type", ("dict", K1, K0)), ("type", ("list", ("list", K0))),
-          ("type", ("tuple", K0, K1)), ("type", ("tuple", K0)), ("typeany",)]
+          ("type", ("tuple", K0, K1)), ("type", ("tuple", K0)), ("typeany",), ("type", ("list", ("any",))), ("type", ("dict", K0, ("any",)))]
     A1 = [K0, K1, ("obj",)]
     P0 = [("cls", K2), ("cls", K0), ("cls", ("list", K2)), ("cls", ("list", K0)), ("cls", ("list", ("list", K2))),
           ("cls", ("dict", K2, K2)), ("cls", ("dict", K0, K2)), ("cls", ("mylist", K2)), ("cls", ("any",)),
@@ -254,14 +273,20 @@ def gen_shapes(tier, seed):
     one2 = [dict(n=n, methods=[[a], [b]], args=[p]) for a in A0 for b in A0 for p in P0]
     one3 = [dict(n=n, methods=[[a], [b], [c]], args=[p]) for a in A0 for b in A0 for c in A0 for p in P0]
     two = [dict(n=n, methods=[[a, x], [b, y]], args=[p, q]) for a in A0 for b in A0 for x in A1 for y in A1 for p in P0 for q in P1]
-    total = len(one2) + len(one3) + len(two)
+    # type[...] as a member of a union (next to a plain class): the position must still be keyed by the passed type; only against a
+    # catch-all method (the order of unions among themselves is C12's subject)
+    UN = [("union", ("type", K0), K1), ("union", K1, ("type", K0)), ("union", ("type", ("list", K0)), K1), ("union", ("type", K0), ("type", ("list", K1)))]
+    uni = [dict(n=n, methods=[[u], [("obj",)]], args=[p]) for u in UN for p in P0 + [("inst", 1), ("inst", 0)]]
+    kw2 = [dict(sh, kwonly=True) for sh in one2]
+    total = len(one2) + len(one3) + len(two) + len(kw2) + len(uni)
+    rng.shuffle(kw2)
     rng.shuffle(one2)
     rng.shuffle(one3)
     rng.shuffle(two)
     if tier == "quick":
-        shapes = one2[:700] + one3[:500] + two[:400]
+        shapes = one2[:700] + one3[:500] + two[:400] + kw2[:300] + uni
     else:
-        shapes = one2 + one3[:8000] + two[:8000]
+        shapes = one2 + one3[:8000] + two[:8000] + kw2 + uni
     return shapes, total, True
 
 
@@ -282,7 +307,7 @@ def main(tier, seed):
     results = runner.pmap("props.c14", "explore_shape", shapes, kw, chunksize=8)
     return runner.finish(
         PID, tier, seed, t0, results,
-        bounds=dict(classes=3, methods="2-3", positions="1-2 (type position + plain position)",
+        bounds=dict(classes=3, methods="2-3", positions="1-2 (type position + plain position); the type-valued parameter positional or keyword-only",
                     annotations="object, Ki, type, type[object], type[Ki], type[list[Ki]], type[list[object]], type[dict[Ki,Kj]], type[list[list[Ki]]], type[tuple[Ki]], type[tuple[Ki,Kj]]",
                     passed="Ki, list[Ki], list[list[Ki]], dict[Ki,Kj], tuple[Ki], tuple[Ki,Kj], MyList[Ki] (list subclass origin), typing.Any, object, instances",
                     priorities="unbounded integers (symbolic)", hierarchy="every partial order on 3 classes (symbolic)"),
